@@ -1076,6 +1076,12 @@ class FuncVerifier:
         return ty.is_obj and any(c in self.E.sc.dict_records for c in ty.name.split('|'))
 
     def ev_Attribute(self, node, st, spec):
+        if node.attr == '__class__' and not (isinstance(node.value, ast.Name) and self.module
+                                              and node.value.id in self.module.imports and node.value.id not in st.env):
+            # x.__class__ : the class of the object, as a value that can be compared with == / another __class__
+            base = self.ev(node.value, st, spec)
+            if base.ty.strip_opt().kind in ('obj', 'any'):
+                return SV(P.I(P.cls(base.term)), T.Abs('PyType'))
         # module constant e.g. ast.ClassDeclaration handled by callers; here: object field read
         if isinstance(node.value, ast.Name) and self.module and node.value.id in self.module.imports \
                 and node.value.id not in st.env and not any(node.value.id in d for d in self.bound_env):
